@@ -26,12 +26,13 @@ type ClientServerStream struct {
 
 	serverSend chan any
 	clientSend chan any
+	trailer    metadata.MD
+	closed     context.CancelFunc
+	closeErr   error
+
 	// singleResponse is set for calls of methods without server streaming (set before the stream is used).
 	// Like gRPC, the client is given the single response only together with an OK status.
 	singleResponse bool
-	trailer        metadata.MD
-	closed     context.CancelFunc
-	closeErr   error
 }
 
 func NewClientServerStream(ctx context.Context) *ClientServerStream {
